@@ -46,7 +46,7 @@ def gen_cases(ctx, forest, ntrees, per_tree):
                 prune.append(nm)          # the starting point itself
             mind, maxd = (None, None) if rng.random() < 0.6 else (rng.choice([None, 1, 2]), rng.choice([None, 1, 2, 3]))
             cases.append(dict(treekey=(ctx.seed, k), roots=[nm], mode=mode, mind=mind, maxd=maxd,
-                              post=rng.random() < 0.45, prune=prune))
+                              post=rng.random() < 0.45, post_late=rng.choice([None, None, "-depth", "-d"]), prune=prune))
     return cases
 
 
